@@ -62,6 +62,8 @@ enum WU {
     /// `$'…'`, content already unquoted
     Dsq(String),
     Dq(Vec<TU>),
+    /// tilde prefix `~name`, as `Word::parse_tilde_front` makes it (slash = followed by `/`)
+    Tilde { name: String, slash: bool },
 }
 
 fn tok_char(c: char) -> String {
@@ -99,6 +101,7 @@ fn word_tokens(w: &[WU], out: &mut Vec<String>) {
             WU::Unq(t) => tu_tokens(t, out),
             WU::Sq(s) => out.push(format!("S{}", enc_str(s))),
             WU::Dsq(s) => out.push(format!("Q{}", enc_str(s))),
+            WU::Tilde { name, slash } => out.push(format!("T{}{}", if *slash { "/" } else { "" }, enc_str(name))),
             WU::Dq(ts) => {
                 out.push("D[".into());
                 for t in ts {
@@ -212,6 +215,14 @@ fn parse_units<'a>(rest: &mut std::slice::Iter<'a, &'a str>) -> Option<Vec<WU>> 
                 rest.next();
                 out.push(WU::Dsq(dec_str(&t[1..])?));
             }
+            Some(t) if t.starts_with("T/") => {
+                rest.next();
+                out.push(WU::Tilde { name: dec_str(&t[2..])?, slash: true });
+            }
+            Some(t) if t.starts_with('T') => {
+                rest.next();
+                out.push(WU::Tilde { name: dec_str(&t[1..])?, slash: false });
+            }
             Some(t) => {
                 rest.next();
                 out.push(WU::Unq(parse_tu(t, rest)?));
@@ -252,7 +263,7 @@ enum Ctx {
 
 fn lit_ok(c: char, ctx: Ctx) -> bool {
     match c {
-        'a'..='z' | 'A'..='Z' | ':' | '*' | '\u{a0}' | '/' | '.' | ',' | '%' | '+' | '-' | '_' | '?' | '0'..='9' => true,
+        'a'..='z' | 'A'..='Z' | ':' | '*' | '\u{a0}' | '/' | '.' | ',' | '%' | '+' | '-' | '_' | '?' | '0'..='9' | '~' => true,
         ' ' => ctx != Ctx::Top,
         // bracket expressions in the pattern of a trim (always lexed in word context inside `${…}`)
         '[' | ']' | '!' | '^' | '=' => ctx == Ctx::BraceW,
@@ -372,6 +383,21 @@ fn render_tus(ts: &[TU], ctx: Ctx, out: &mut String) -> Option<()> {
 }
 
 fn render_wus(w: &[WU], ctx: Ctx, out: &mut String) -> Option<()> {
+    // a leading unquoted `~` in a word context is a tilde prefix for the parser, never a literal
+    if matches!(ctx, Ctx::Top | Ctx::BraceW) && w.first() == Some(&WU::Unq(TU::Lit('~'))) {
+        // `parse_tilde`: the literals after `~` run to a `/` or to the end of the word → a tilde prefix;
+        // any other unit before that → the `~` stays a literal
+        for u in &w[1..] {
+            match u {
+                WU::Unq(TU::Lit('/')) => return None,
+                WU::Unq(TU::Lit(_)) => {}
+                _ => break,
+            }
+        }
+        if w[1..].iter().all(|u| matches!(u, WU::Unq(TU::Lit(_)))) {
+            return None;
+        }
+    }
     // group consecutive unquoted units so that `$x` followed by a literal is seen by render_tus
     let mut i = 0;
     while i < w.len() {
@@ -410,6 +436,23 @@ fn render_wus(w: &[WU], ctx: Ctx, out: &mut String) -> Option<()> {
                     }
                 }
                 out.push('\'');
+                i += 1;
+            }
+            WU::Tilde { name, slash } => {
+                // only at the front of a word lexed in word context; the name is a run of unquoted literals that
+                // ends at the first `/` or at the end of the word
+                if i != 0 || !matches!(ctx, Ctx::Top | Ctx::BraceW) {
+                    return None;
+                }
+                if !name.chars().all(|c| c != '/' && lit_ok(c, ctx)) {
+                    return None;
+                }
+                match (slash, w.get(1)) {
+                    (true, Some(WU::Unq(TU::Lit('/')))) | (false, None) => {}
+                    _ => return None,
+                }
+                out.push('~');
+                out.push_str(name);
                 i += 1;
             }
             WU::Dq(ts) => {
@@ -478,6 +521,10 @@ fn from_word(w: &sx::Word) -> Option<Vec<WU>> {
                 sx::WordUnit::SingleQuote(s) => WU::Sq(s.clone()),
                 sx::WordUnit::DoubleQuote(t) => WU::Dq(t.0.iter().map(from_text_unit).collect::<Option<Vec<_>>>()?),
                 sx::WordUnit::DollarSingleQuote(es) => WU::Dsq(es.unquote().0),
+                sx::WordUnit::Tilde { name, followed_by_slash } => {
+                    WU::Tilde { name: name.clone(), slash: *followed_by_slash }
+                }
+                #[allow(unreachable_patterns)]
                 _ => return None,
             })
         })
@@ -515,6 +562,8 @@ struct ShState {
     locals: Vec<(String, Option<String>)>,
     /// `read -d c`: the logical line delimiter (one single-byte character)
     delim: Option<char>,
+    /// the user database of the virtual system: login name, home directory
+    homes: Vec<(String, String)>,
 }
 
 fn parse_list(v: &str) -> Option<Vec<String>> {
@@ -540,6 +589,12 @@ fn parse_state(toks: &[&str]) -> Option<ShState> {
             "bg" => st.bg = Some(v.parse().ok()?),
             "ctx" => st.ctx = v.to_string(),
             "portable" => st.portable = v == "1",
+            "pw" => {
+                for e in v.split(',') {
+                    let (n, d) = e.split_once(':')?;
+                    st.homes.push((dec_str(n)?, dec_str(d)?));
+                }
+            }
             _ if k.starts_with('@') => {
                 let val = if v == "U" {
                     None
@@ -822,6 +877,16 @@ fn run_w(state_toks: &[&str], word_text: &str) -> (String, String) {
     };
     let ctx = st.ctx.clone();
     let single = matches!(ctx.as_str(), "asg" | "exp" | "here");
+    if matches!(ctx.as_str(), "asg" | "exp") {
+        // in an assignment the parser looks for tilde prefixes after every unquoted colon as well
+        // (`parse_tilde_everywhere_after`) and ends a name at a colon: only words for which that reading and the
+        // reading of a command word coincide are placed here
+        for w in &words {
+            if !asg_ok(w) {
+                return ("unrenderable".into(), "-".into());
+            }
+        }
+    }
     let mut srcs = vec![];
     for w in &words {
         let src = if ctx == "here" {
@@ -857,10 +922,14 @@ fn run_w(state_toks: &[&str], word_text: &str) -> (String, String) {
     let srcs2 = srcs.clone();
     let wants: Vec<String> = words.iter().map(|w| word_string(w)).collect();
     let ctx2 = ctx.clone();
+    let words2 = words.clone();
     let (outcome, fin) = run_with(
         config(script, &st),
-        move |env, _| {
+        move |env, sys| {
             apply_state(env, &st2);
+            for (n, d) in &st2.homes {
+                sys.borrow_mut().home_dirs.insert(n.clone(), yash_env::path::PathBuf::from(d.as_str()));
+            }
             // the oracle works on a clone of the environment (same virtual system, own variables)
             let mut d = direct2.borrow_mut();
             let mut env2 = env.clone();
@@ -895,6 +964,17 @@ fn run_w(state_toks: &[&str], word_text: &str) -> (String, String) {
                 if &got != want {
                     d.parse = Some(got.replace(' ', "_"));
                 }
+                let tilde_here: Option<(String, bool, Option<String>)> = match words2[step].first() {
+                    Some(WU::Tilde { name, slash }) => {
+                        let dir = if name.is_empty() {
+                            env2.variables.get_scalar("HOME").map(|s| s.to_string())
+                        } else {
+                            st2.homes.iter().find(|(n, _)| n == name).map(|(_, d)| d.clone())
+                        };
+                        Some((name.clone(), *slash, dir))
+                    }
+                    _ => None,
+                };
                 let r = if ctx2 == "fn" && step % 2 == 0 {
                     // inside a function call: own variable context with the declared locals, same positional parameters
                     let pos = env2.variables.positional_params().values.clone();
@@ -926,6 +1006,28 @@ fn run_w(state_toks: &[&str], word_text: &str) -> (String, String) {
                     Some(Ok(phrase)) => {
                         // direct API legs on the phrase: denotation equality, emptiness, iteration both ways
                         let fs: Vec<Vec<AttrChar>> = phrase.clone().into_iter().collect();
+                        // XCU 2.6.1 on a leading tilde prefix: the word's first field starts with the directory
+                        // (HOME / user database as they were before this word), one trailing slash dropped before
+                        // a slash, as unquoted hard-expansion characters; an empty directory leaves a quoting character
+                        if let Some((name, slash, dir)) = &tilde_here {
+                            if let Some(dir) = dir {
+                                let dd: &str = if *slash { dir.strip_suffix('/').unwrap_or(dir) } else { dir };
+                                let first = fs.first().cloned().unwrap_or_default();
+                                let n = dd.chars().count();
+                                let ok = if n == 0 {
+                                    first.first().is_some_and(|c| c.is_quoting && !c.is_quoted)
+                                } else {
+                                    first.len() >= n
+                                        && first[..n].iter().map(|c| c.value).collect::<String>() == dd
+                                        && first[..n].iter().all(|c| {
+                                            c.origin == Origin::HardExpansion && !c.is_quoted && !c.is_quoting
+                                        })
+                                };
+                                if !ok {
+                                    d.parse = Some(format!("tilde:{}:{}", enc_str(name), enc_str(dd)));
+                                }
+                            }
+                        }
                         d.attrs.push(show_attr(&fs));
                         let mut back: Vec<Vec<AttrChar>> = phrase.clone().into_iter().rev().collect();
                         back.reverse();
@@ -1770,6 +1872,111 @@ fn will_split_family() -> Vec<Vec<WU>> {
     out
 }
 
+/// the word reads the same as an assignment value and as a command word (no `:~`, no colon in a tilde name)
+fn asg_ok(w: &[WU]) -> bool {
+    let colon_tilde = w.windows(2).any(|p| p[0] == lit(':') && p[1] == lit('~'));
+    let tilde_colon = w.iter().any(|u| matches!(u, WU::Tilde { name, .. } if name.contains(':')));
+    !(colon_tilde || tilde_colon)
+}
+
+fn tilde(name: &str, slash: bool) -> WU {
+    WU::Tilde { name: name.into(), slash }
+}
+
+/// tilde prefixes (`initial/tilde.rs`, `parse_tilde_front`): at the front of a command word, of a switch word and
+/// of a trim pattern; known / unknown login names; followed by nothing, a slash, more text, expansions; and the
+/// places where `~` is NOT a tilde prefix (quoted, inside double quotes, not at the front, before an expansion)
+fn tilde_family() -> Vec<Vec<WU>> {
+    let mut out: Vec<Vec<WU>> = vec![];
+    let tails: Vec<Vec<WU>> = vec![
+        vec![],
+        vec![lit('/')],
+        vec![lit('/'), lit('b')],
+        vec![lit('/'), lit('b'), lit(':'), lit('c')],
+        vec![lit('/'), WU::Unq(raw("x"))],
+        vec![lit('/'), WU::Dq(vec![raw("x")])],
+        vec![lit('/'), lit('*')],
+        vec![lit('/'), WU::Unq(raw("@"))],
+        vec![lit('/'), lit('/'), lit('a')],
+    ];
+    for name in ["", "a", "root", "zz", "a:b", "~", "A.b-c_9"] {
+        for t in &tails {
+            let mut w = vec![tilde(name, !t.is_empty())];
+            w.extend(t.iter().cloned());
+            out.push(w);
+        }
+    }
+    // inside modifiers: the word of a switch (word context only) and the pattern of a trim (always)
+    let inner: Vec<Vec<WU>> = vec![
+        vec![tilde("", false)],
+        vec![tilde("a", false)],
+        vec![tilde("", true), lit('/'), lit('b')],
+        vec![tilde("zz", true), lit('/')],
+        vec![tilde("a", true), lit('/'), lit('*')],
+    ];
+    for w in &inner {
+        for (colon, act) in SWITCHES {
+            for p in ["u", "e", "x", "@"] {
+                let sw = braced(p, Mo::Sw { colon, act, w: w.clone() });
+                out.push(vec![WU::Unq(sw.clone())]);
+                out.push(vec![lit('a'), WU::Unq(sw.clone()), lit('b')]);
+            }
+        }
+        for (side, long) in TRIMS {
+            for p in ["x", "h", "@"] {
+                let tr = braced(p, Mo::Tr { side, long, w: w.clone() });
+                out.push(vec![WU::Unq(tr.clone())]);
+                out.push(vec![WU::Dq(vec![tr.clone()])]);
+            }
+        }
+    }
+    // `~` that is not a tilde prefix
+    out.push(vec![WU::Dq(vec![TU::Lit('~')])]);
+    out.push(vec![WU::Dq(vec![TU::Lit('~'), TU::Lit('/'), TU::Lit('a')])]);
+    out.push(vec![WU::Sq("~".into())]);
+    out.push(vec![WU::Unq(TU::Bs('~'))]);
+    out.push(vec![lit('a'), lit('~')]);
+    out.push(vec![lit('a'), lit(':'), lit('~'), lit('/')]);
+    out.push(vec![lit('~'), WU::Unq(raw("x"))]);
+    out.push(vec![lit('~'), lit('a'), WU::Dq(vec![TU::Lit('b')]), lit('/')]);
+    out.push(vec![lit('~'), WU::Sq("".into()), lit('/')]);
+    out.push(vec![WU::Dq(vec![braced("u", Mo::Sw { colon: false, act: '-', w: vec![lit('~')] })])]);
+    out.push(vec![WU::Dq(vec![braced("u", Mo::Sw { colon: false, act: '-', w: vec![lit('~'), lit('/'), lit('a')] })])]);
+    out.push(vec![WU::Unq(raw("h"))]);
+    out
+}
+
+const HOME_STATES: [&str; 10] = [
+    "HOME=U", "HOME=s-", "HOME=s2f", "HOME=s2f68", "HOME=s2f682f", "HOME=s2f612062", "HOME=s2f683a78", "HOME=a1:2f78",
+    "HOME=s2f2f", "HOME=s2f2a",
+];
+/// user databases: none; a → /home/a; a → / and root → "" (empty directory); a → "/u v/" and root → /root
+const PW_STATES: [&str; 4] = ["", "pw=61:2f686f6d652f61", "pw=61:2f,726f6f74:-", "pw=61:2f7520762f,726f6f74:2f726f6f74"];
+const TILDE_IFS_STATES: [&str; 7] = ["", "IFS=s2f", "IFS=s3a", "IFS=s202f", "IFS=s-", "IFS=U", "IFS=s2f3a68"];
+/// `h` holds a value that looks like an expanded home directory (for the trims)
+const H_STATES: [&str; 3] = ["", "h=s2f682f61", "h=s2f686f6d652f612f62"];
+
+fn tilde_state(r: &mut Rng) -> String {
+    let mut parts: Vec<String> = vec![];
+    for s in [
+        *r.pick(&HOME_STATES),
+        *r.pick(&PW_STATES),
+        *r.pick(&TILDE_IFS_STATES),
+        *r.pick(&H_STATES),
+        *r.pick(&X_STATES),
+        "e=s-",
+        *r.pick(&POS_STATES),
+    ] {
+        if !s.is_empty() {
+            parts.push(s.to_string());
+        }
+    }
+    if r.chance(1, 4) {
+        parts.push("nu=1".into());
+    }
+    parts.join(" ")
+}
+
 fn w_case(state: &str, w: &[WU]) -> String {
     format!("W {} | {}", state, word_string(w))
 }
@@ -1965,6 +2172,120 @@ fn main() {
             out(w_case(&st, &w));
         } else {
             out(ctx_case(&mut rng, &st, &w));
+        }
+    }
+    // 3a. tilde prefixes (own generator stream: the families above keep their cases)
+    {
+        let mut trng = Rng::new(o.seed ^ 0xC01_71DE);
+        let kt = if thorough { 120 } else { 12 };
+        for w in tilde_family() {
+            if !renderable(&w) {
+                continue;
+            }
+            for k in 0..kt {
+                let st = tilde_state(&mut trng);
+                if k % 3 == 0 && asg_ok(&w) {
+                    out(ctx_case(&mut trng, &st, &w));
+                } else {
+                    out(w_case(&st, &w));
+                }
+            }
+        }
+        // a tilde prefix in front of a random word
+        let nt = if thorough { 60_000 } else { 2_000 };
+        let mut made = 0;
+        while made < nt {
+            let name = *trng.pick(&["", "", "a", "root", "zz"]);
+            let mut tail = random_word(&mut trng, Ctx::Top, 2, 4);
+            let mut w = vec![];
+            if trng.chance(1, 5) {
+                tail.clear();
+            }
+            w.push(tilde(name, !tail.is_empty()));
+            if !tail.is_empty() {
+                w.push(lit('/'));
+            }
+            w.extend(tail);
+            if !renderable(&w) {
+                continue;
+            }
+            made += 1;
+            let st = tilde_state(&mut trng);
+            if made % 2 == 0 || !asg_ok(&w) {
+                out(w_case(&st, &w));
+            } else {
+                out(ctx_case(&mut trng, &st, &w));
+            }
+        }
+    }
+    // 3a'. shapes of text nobody generated before: multi-byte characters (also as IFS), a very long value,
+    // values that start with `-`; with the forms whose result depends on characters vs bytes
+    {
+        let mut xrng = Rng::new(o.seed ^ 0xC01_7E87);
+        let long: String = "ab :\u{e9}".chars().cycle().take(300).collect();
+        let xs: Vec<String> = vec![
+            "x=s2d6e2061".into(),                    // "-n a"
+            "x=s2d".into(),                          // "-"
+            "x=s2d2d20c3a9".into(),                  // "-- é"
+            "x=sc3a9e697a5e69cac20f09f9880".into(),  // "é日本 😀"
+            "x=se697a5c3a9e697a5".into(),            // "日é日"
+            format!("x=s{}", enc_str(&long)),
+            format!("x=a2:{}:2d", enc_str(&long)),
+        ];
+        let ifss = ["", "IFS=sc3a9", "IFS=se697a5", "IFS=s3a", "IFS=s20c3a9", "IFS=s-", "IFS=sf09f9880"];
+        let poss = ["pos=0", "pos=2:2d6e:c3a9e697a5", "pos=1:e697a5c3a9e697a5"];
+        let mut words: Vec<Vec<WU>> = vec![
+            vec![WU::Unq(raw("x"))],
+            vec![WU::Dq(vec![raw("x")])],
+            vec![WU::Unq(braced("x", Mo::Len))],
+            vec![WU::Unq(raw("@"))],
+            vec![WU::Unq(raw("*"))],
+            vec![WU::Dq(vec![raw("*")])],
+            vec![WU::Unq(braced("1", Mo::Len))],
+            vec![WU::Unq(braced("@", Mo::Len))],
+            vec![WU::Unq(braced("u", Mo::Sw { colon: true, act: '-', w: vec![WU::Unq(raw("x"))] }))],
+            vec![lit('-'), WU::Unq(raw("x"))],
+        ];
+        for (side, long) in TRIMS {
+            for pat in [vec![lit('?')], vec![lit('*'), lit(' ')], vec![lit('-'), lit('*')], vec![lit('?'), lit('?')], vec![lit('['), lit('!'), lit('a'), lit(']')]] {
+                words.push(vec![WU::Unq(braced("x", Mo::Tr { side, long, w: pat.clone() }))]);
+                words.push(vec![WU::Dq(vec![braced("1", Mo::Tr { side, long, w: pat })])]);
+            }
+        }
+        let kx = if thorough { 8 } else { 1 };
+        for w in &words {
+            if !renderable(w) {
+                continue;
+            }
+            for x in &xs {
+                for ifs in ifss {
+                    for _ in 0..kx {
+                        let pos = *xrng.pick(&poss);
+                        let nu = if xrng.chance(1, 4) { " nu=1" } else { "" };
+                        let st = format!("{x} {pos} {ifs}{nu}").replace("  ", " ");
+                        if xrng.chance(1, 3) {
+                            out(ctx_case(&mut xrng, st.trim(), w));
+                        } else {
+                            out(w_case(st.trim(), w));
+                        }
+                    }
+                }
+            }
+        }
+        // … and for `read`
+        let lines = ["\u{e9}a\u{e9}\u{e9}b \u{65e5}\n", "-n \u{e9} b\n", "\u{65e5}\\\u{e9}\u{65e5}\u{e9}\n", "a\u{1f600}b\u{1f600}\n", "\u{e9}\n"];
+        for l in lines {
+            for ifs in ifss {
+                for n in 1..=3 {
+                    for raw in [0, 1] {
+                        out(format!("R {ifs} raw={raw} n={n} | {}", enc_str(l)).replace("R  ", "R "));
+                    }
+                }
+            }
+        }
+        let long_line: String = format!("{}\n", "ab :\u{e9}\\ ".chars().cycle().take(400).collect::<String>());
+        for ifs in ifss {
+            out(format!("R {ifs} raw=0 n=3 | {}", enc_str(&long_line)).replace("R  ", "R "));
         }
     }
     // 3b. the braced-parameter lexer: everything that can follow `${`, up to 4 (thorough 5) characters
